@@ -265,7 +265,7 @@ impl Prop for C15 {
         }
     }
     fn cases(tier: Tier) -> u64 {
-        scale(tier, 1_000_000, 10_000_000)
+        scale(tier, 2_000_000, 10_000_000)
     }
     fn rule() -> &'static str {
         "an arena filled with pseudo-random content (continuation-heavy) and then rewound so that non-zero bytes lie above allocated(); 1..8 reader calls at offsets dense around allocated()-20..+3 and capacity, 0..=capacity+16, around 2^32 / 2^63 and usize::MAX-k, for get_u8/i8, get_{u,i}{16,32,64,128}_{be,le} and the eight varint readers, under checked and unchecked builds. Oracle: fixed width Ok(v) with v = reference decode of memory()[o..o+N] iff o+N <= allocated() (u128 arithmetic) else OutOfBounds; varint: OutOfBounds at or above the mark, otherwise the result equals the decoder applied to exactly memory()[o..min(allocated, o+MAXLEN)] (const_varint, the crate rarena delegates to), cross-checked with an independent LEB128 reference for unsigned types; slice accessor lengths. Non-trivial = non-zero bytes above the mark and a query that straddles the mark, a varint whose terminator lies above it, or an offset near usize::MAX"
@@ -455,7 +455,7 @@ impl Prop for C19 {
         }
     }
     fn cases(tier: Tier) -> u64 {
-        scale(tier, 120_000, 5_000_000)
+        scale(tier, 480_000, 5_000_000)
     }
     fn rule() -> &'static str {
         "reserved 0..=64, checksummed length = k*page + delta for k in 0..=3 and delta dense at -2..=2 (plus random), reached exactly by one alloc_bytes of the right size, pseudo-random content, 0xEE above the mark, Vec / anon / file backends, both flavours; oracle: checksum(b) == b.checksum_one(allocated_memory()[reserved..]) for Crc32 and for a position-weighted sum (sum of (i+1)*(b_i+1) mod 2^64-59, xor rotated length) whose streaming state is the running index, so dropped, repeated or reordered chunks change the result while chunk boundaries do not. Non-trivial = length within 1 of a page multiple (>= 1 page), or multi-page with a non-empty reserved prefix"
